@@ -10,4 +10,5 @@ var Registry = map[string]func() *vlib.Plan{
 	"C09": C09Plan,
 	"C12": C12Plan,
 	"C14": C14Plan,
+	"C15": C15Plan,
 }
